@@ -281,7 +281,7 @@ func checkC18(ctx *Ctx, r *Report, tier string) {
 			r.undecided("H4", o.fn, 0, "not found")
 			continue
 		}
-		ev := newEval(ctx, "ISOThread", "Screw3D", "HexHead3D", "KnurledHead3D", "Cylinder3D", "Transform3D", "Union3D", "Difference3D", "ChamferedCylinder", "ThreadLookup", "HexRadius", "HexHeight", "Translate3d", "ErrMsg")
+		ev := newEvalPkg(ctx, "/obj", "ISOThread", "Screw3D", "HexHead3D", "KnurledHead3D", "Cylinder3D", "Transform3D", "Union3D", "Difference3D", "ChamferedCylinder", "ThreadLookup", "HexRadius", "HexHeight", "Translate3d", "ErrMsg")
 		ev.evalRoot(fn)
 		k := fn.Params[0].Name()
 		row := "call:" + modPath + "/sdf.ThreadLookup#0(" + k + ".Thread)"
